@@ -88,6 +88,12 @@ func checkDecoderRefusals(p *Prog, r *Result, rule string) {
 							if named := namedOf(tv.Type); named != nil && named.Obj().Name() == "Kind" {
 								continue
 							}
+							// state of the decoder itself (a nesting depth kept in the receiver) is not a decoded number
+							if sel, ok := ast.Unparen(v).(*ast.SelectorExpr); ok && fd.Recv != nil && len(fd.Recv.List) > 0 && len(fd.Recv.List[0].Names) > 0 {
+								if id, ok := ast.Unparen(sel.X).(*ast.Ident); ok && info.ObjectOf(id) == info.Defs[fd.Recv.List[0].Names[0]] {
+									continue
+								}
+							}
 							bad = exprString(b)
 						}
 						return true
@@ -128,7 +134,7 @@ func checkDecoderRefusals(p *Prog, r *Result, rule string) {
 func checkStructAlwaysEncoded(p *Prog, r *Result, rule string) {
 	pkg := p.Pkg("syntax/typedjson")
 	info := pkg.TypesInfo
-	fd := p.FuncDecl("syntax/typedjson", "encodeValue")
+	fd := p.FuncOrMethodDecl("syntax/typedjson", "encodeValue")
 	if fd == nil {
 		r.Fatalf("typedjson.encodeValue not found")
 		return
@@ -190,5 +196,155 @@ func checkStructAlwaysEncoded(p *Prog, r *Result, rule string) {
 	})
 	if !found {
 		r.Undecided(rule, "syntax/typedjson.encodeValue#case reflect.Struct", fd.Pos(), "no clause for reflect.Struct found in encodeValue")
+	}
+}
+
+// R15g: a field that a function of package typedjson increments and also decrements is a depth/balance counter: every
+// path from the increment to a return passes the decrement (or a defer that holds it was registered first). A leaked
+// level per decoded value turns a nesting guard into a limit on the size of flat documents. No such counter exists on
+// the pinned tree; the rule is kept armed by a control.
+func checkBalancedCounters(p *Prog, r *Result, rel, rule string) {
+	pkg := p.Pkg(rel)
+	info := pkg.TypesInfo
+	n := 0
+	for _, fd := range p.AllFuncDecls(rel) {
+		var incs []*ast.IncDecStmt
+		decOf := map[*types.Var]bool{}
+		inspectNoLit(fd.Body, func(nd ast.Node) bool {
+			if s, ok := nd.(*ast.IncDecStmt); ok {
+				if fv := selectorField(info, s.X); fv != nil {
+					if s.Tok == token.INC {
+						incs = append(incs, s)
+					} else {
+						decOf[fv] = true
+					}
+				}
+			}
+			return true
+		})
+		// decrements inside deferred literals
+		deferDec := map[*types.Var]ast.Node{}
+		inspectNoLit(fd.Body, func(nd ast.Node) bool {
+			if ds, ok := nd.(*ast.DeferStmt); ok {
+				ast.Inspect(ds, func(m ast.Node) bool {
+					if s, ok := m.(*ast.IncDecStmt); ok && s.Tok == token.DEC {
+						if fv := selectorField(info, s.X); fv != nil {
+							deferDec[fv] = ds
+						}
+					}
+					return true
+				})
+			}
+			return true
+		})
+		if len(incs) == 0 {
+			continue
+		}
+		var g *FGraph
+		for _, inc := range incs {
+			fv := selectorField(info, inc.X)
+			if !decOf[fv] && deferDec[fv] == nil {
+				continue // a plain tally, not a balanced counter
+			}
+			n++
+			if g == nil {
+				g = NewFGraph(info, fd.Body, nil)
+			}
+			key := funcKey(rel, fd) + "#" + fv.Name() + "++ is undone on every path"
+			blk, idx := g.BlockOf(inc)
+			if blk == nil {
+				// an increment in an if's init statement belongs to the condition node
+				blk = blockContaining(g, inc)
+				idx = -1
+				if blk != nil {
+					for i, nd := range blk.Nodes {
+						if nd.Pos() <= inc.Pos() && inc.End() <= nd.End() {
+							idx = i
+						}
+					}
+				}
+			}
+			if blk == nil || idx < 0 {
+				r.Undecided(rule, key, inc.Pos(), "increment not found in the flow graph")
+				continue
+			}
+			if ds := deferDec[fv]; ds != nil && ds.Pos() < inc.Pos() {
+				r.OK(rule, key, inc.Pos(), "a deferred decrement was registered before the increment")
+				continue
+			}
+			ok, _ := g.MustPass(blk, idx, g.Exit, func(nd ast.Node) bool {
+				if s, ok := nd.(*ast.IncDecStmt); ok && s.Tok == token.DEC && selectorField(info, s.X) == fv {
+					return true
+				}
+				if ds, ok := nd.(*ast.DeferStmt); ok && deferDec[fv] == ast.Node(ds) {
+					return true
+				}
+				return false
+			}, nil)
+			r.Check(ok, rule, key, inc.Pos(), "every path to a return passes the decrement",
+				"some path returns with the counter still incremented: each such return leaks one level, so a nesting limit becomes a limit on how many values a document may hold")
+		}
+	}
+	if n == 0 {
+		r.Notef("%s: no balanced counter in package %s today (kept armed by a control)", rule, rel)
+	}
+}
+
+// R15h: Encode refuses nothing of its own. "For every parsed tree, decoding its encoding gives the tree" needs an
+// encoding to exist; the only errors Encode may return are the ones handed to it by the JSON encoder or the writer. So
+// every non-nil error result of Encode is a local variable of type error that was assigned from a call (propagation),
+// or the call itself — never a freshly made error or a package-level error value.
+func checkEncodeErrors(p *Prog, r *Result, rule string) {
+	pkg := p.Pkg("syntax/typedjson")
+	info := pkg.TypesInfo
+	var fds []*ast.FuncDecl
+	for _, fd := range p.AllFuncDecls("syntax/typedjson") {
+		if fd.Name.Name == "Encode" {
+			fds = append(fds, fd)
+		}
+	}
+	if len(fds) == 0 {
+		r.Undecided(rule, "syntax/typedjson#Encode", token.NoPos, "no function named Encode found")
+		return
+	}
+	n := 0
+	for _, fd := range fds {
+		seen := map[string]int{}
+		inspectNoLit(fd.Body, func(nd ast.Node) bool {
+			rs, ok := nd.(*ast.ReturnStmt)
+			if !ok || len(rs.Results) != 1 {
+				return true
+			}
+			e := ast.Unparen(rs.Results[0])
+			if isNilIdent(info, e) {
+				return true
+			}
+			n++
+			how := ""
+			switch x := e.(type) {
+			case *ast.CallExpr:
+				fn := calleeOf(info, x)
+				if fn != nil && fn.Pkg() != nil && (fn.Pkg().Path() == "fmt" || fn.Pkg().Path() == "errors") {
+					how = ""
+				} else {
+					how = "the result of " + exprString(x.Fun)
+				}
+			case *ast.Ident:
+				if v, ok := info.ObjectOf(x).(*types.Var); ok && v.Parent() != pkg.Types.Scope() {
+					how = "a local error handed back by a call"
+				}
+			}
+			key := funcKey("syntax/typedjson", fd) + "#returns " + shortExpr(e)
+			seen[key]++
+			if seen[key] > 1 {
+				key += fmt.Sprintf("#%d", seen[key])
+			}
+			r.Check(how != "", rule, key, rs.Pos(), how,
+				"Encode returns an error of its own making: some parsed tree has no encoding, so there is nothing to decode back")
+			return true
+		})
+	}
+	if n == 0 {
+		r.Notef("%s: Encode returns no error", rule)
 	}
 }
